@@ -104,7 +104,7 @@ def pair_case(draw):
     s = draw(_structure(allow_dc=False))
     lv = leaves_of(s)
     va = [_values_for(draw, lf) for lf in lv]
-    muts = [draw(st.sampled_from(["same"] * 5 + ["tweak", "tiny", "append1", "bcast", "recast", "fresh"]))
+    muts = [draw(st.sampled_from(["same"] * 5 + ["tweak", "tiny", "append1", "bcast", "recast", "lossy", "fresh"]))
             for _ in lv]
     fresh = [_values_for(draw, lf) if m == "fresh" else None for lf, m in zip(lv, muts)]
     pos = [draw(st.integers(0, 1000)) for _ in lv]
@@ -215,7 +215,7 @@ def eval_batch(case):
 
 def _mutate(leaf, vals, mut, fresh, pos):
     a = mk_np(leaf, vals)
-    if mut == "same" or (a.size == 0 and mut in ("tweak", "tiny", "bcast")):
+    if mut == "same" or (a.size == 0 and mut in ("tweak", "tiny", "bcast", "lossy")):
         return a.copy()
     if mut == "fresh":
         return mk_np(leaf, fresh)
@@ -237,6 +237,33 @@ def _mutate(leaf, vals, mut, fresh, pos):
         return a[:1].copy() if a.ndim >= 1 else a.reshape((1,))
     if mut == "recast":
         return a.astype("float32" if not leaf["dtype"].startswith("float") else "float64")
+    if mut == "lossy":
+        # same leaf held in a wider dtype, with one element changed by an amount that a cast back to the
+        # narrower dtype would erase (fraction / wrap-around / rounding / truthiness): different elements
+        p = pos % a.size
+        dt = leaf["dtype"]
+        if dt == "bool":
+            b = a.astype("int8")
+            b.reshape(-1)[p] = 2 if a.reshape(-1)[p] else 0
+            if not a.reshape(-1)[p]:
+                b.reshape(-1)[p] = 0
+                q = np.flatnonzero(a.reshape(-1))
+                if q.size:
+                    b.reshape(-1)[q[0]] = 2
+        elif dt in ("uint8", "int8"):
+            b = a.astype("int32")
+            b.reshape(-1)[p] += 256
+        elif dt == "int16":
+            b = a.astype("int32")
+            b.reshape(-1)[p] += 65536
+        elif dt == "int32":
+            b = a.astype("float32")
+            b.reshape(-1)[p] += 0.5 if a.reshape(-1)[p] >= 0 else -0.5
+        else:
+            b = a.astype("float64")
+            v = b.reshape(-1)[p]
+            b.reshape(-1)[p] = v + (abs(v) + 1.0) * 2.0 ** -40
+        return b
     raise AssertionError(mut)
 
 
